@@ -33,6 +33,15 @@ THEOREMS = [
     'Emg.matEF_eq', 'Emg.mat3_eq',
     'Emg.Ldlt.solve_exact', 'Emg.Ldlt.model_solve_exact',
     'Emg.solveBanded_exact',
+    # the complete multigrid call (Props/Cycle.lean)
+    'Emg.residual_of_solved', 'Emg.amat_nonint', 'Emg.amat_zero',
+    'Emg.restrict_zero', 'Emg.prolong_zero', 'Emg.smoothingC_fixed',
+    'Emg.step_inv', 'Emg.runTrace_fixed', 'Emg.mgRun_fixed',
+    # non-singular block systems for physical models (Props/Coercive.lean)
+    'Emg.energy_zero', 'Emg.solution_unique_phys',
+    'Emg.blockInj_phys', 'Emg.allInj_phys', 'Emg.Phys.coarse',
+    'Emg.Phys.reach', 'Emg.smoother_fixed_point_phys',
+    'Emg.kernel_fixed_point_phys', 'Emg.mgRun_fixed_phys',
 ]
 
 KN = ['gauss_seidel', 'gauss_seidel_x', 'gauss_seidel_y', 'gauss_seidel_z']
@@ -135,6 +144,29 @@ def suite_exact(ctx, core):
                 cases.append((c, ('kernel', k), nu))
                 lines.append(op_line(f"gs {k} {nu}", c))
             t += 1
+    # sparse cases: zero source, the field non-zero on one or two interior
+    # edges only (block right-hand sides that vanish exactly)
+    for t2, shp in enumerate([(3, 3, 3), (4, 3, 3), (3, 3, 4), (2, 2, 2),
+                              (3, 4, 3)]):
+        for k in range(4):
+            if k > 0 and shp[k-1] < 3:
+                continue
+            if not ctx.thorough and (t2 + k) % 2:
+                continue
+            c = make_case(rng, shp, cplx=True, alias='triaxial')
+            zero = [np.full(a.shape, Q(0), dtype=object) for a in c['e']]
+            masks = c02.interior_masks(shp)
+            for _ in range(1 + (t2 + k) % 2):
+                comp = int(rng.integers(0, 3))
+                idx = np.argwhere(masks[comp])
+                zero[comp][tuple(idx[int(rng.integers(0, len(idx)))])] = Q(1)
+            c['e'] = tuple(zero)
+            c['s'] = tuple(np.full(a.shape, Q(0), dtype=object)
+                           for a in c['s'])
+            c['alias'] = 'triaxial-sparse'
+            nu = 1 + (t2 + k) % 2
+            cases.append((c, ('kernel', k), nu))
+            lines.append(op_line(f"gs {k} {nu}", c))
     # smoothing dispatch: all codes, incl. two-cell shapes
     for shp in [(3, 3, 3), (2, 3, 3), (3, 2, 3), (3, 3, 2), (2, 2, 3), (2, 3, 2),
                 (3, 2, 2), (2, 2, 2)]:
@@ -231,8 +263,22 @@ def oracle_case(ctx, core, c, what, nu):
             {'shape': shp, 'what': what, 'nu': nu, 'alias': c['alias'],
              'op_line': op_line('case', base)})
         return True
-    # boundary untouched / frame on the original (non-solution) case
+    # additive in (field, source): S(c + base) = S(c) + S(base), where
+    # S(base) = base (just shown)
     got = run(c)
+    c12 = dict(c, e=tuple(x + y for x, y in zip(c['e'], base['e'])),
+               s=tuple(x + y for x, y in zip(c['s'], base['s'])))
+    r12 = run(c12)
+    if count_diff(r12, [x + y for x, y in zip(got, base['e'])]):
+        ctx.violation(
+            'not-linear',
+            f'{what} nu={nu} on shape {shp} ({c["alias"]}): the smoother is '
+            f'not additive in (field, source): S(u + v) != S(u) + S(v) for '
+            f'the case at hand u and an exact solution v',
+            {'shape': shp, 'what': what, 'nu': nu, 'alias': c['alias'],
+             'op_line': op_line('case', c)})
+        return True
+    # boundary untouched / frame on the original (non-solution) case
     masks = c02.interior_masks(shp)
     for g, e0, mk in zip(got, c['e'], masks):
         neq = np.array([a != b for a, b in zip(g.ravel(), e0.ravel())]
@@ -400,13 +446,269 @@ def suite_jit(ctx, core):
     return bad
 
 
+# --------------------------------------------------------------------------
+# The complete multigrid call: solver.multigrid vs Emg.mgRun
+# --------------------------------------------------------------------------
+
+def dyq(rng, shape, cplx=True, positive=False):
+    """Exact array of small dyadic numbers (exactly representable floats)."""
+    from fractions import Fraction as Fr
+    a = np.empty(shape, dtype=object)
+    for idx in np.ndindex(*shape):
+        d = int(rng.choice([1, 2, 4]))
+        if positive:
+            a[idx] = Q(Fr(int(rng.integers(1, 9)), d), Fr(0))
+        else:
+            a[idx] = Q(Fr(int(rng.integers(-8, 9)), d),
+                       Fr(int(rng.integers(-8, 9)), d) if cplx else Fr(0))
+    return a
+
+
+def set_pec(ex, ey, ez):
+    z = Q(0)
+    ex[:, 0, :] = z; ex[:, -1, :] = z; ex[:, :, 0] = z; ex[:, :, -1] = z
+    ey[0, :, :] = z; ey[-1, :, :] = z; ey[:, :, 0] = z; ey[:, :, -1] = z
+    ez[0, :, :] = z; ez[-1, :, :] = z; ez[:, 0, :] = z; ez[:, -1, :] = z
+
+
+def cycle_case(rng, shp, alias, cplx=True):
+    """Grid, coefficients (eta with negative real and imaginary parts, like
+    -s mu0 sigma vol), PEC field and PEC source; all dyadic."""
+    from fractions import Fraction as Fr
+    sx, sy, sz = c02.shapes_of(*shp)
+    e = [dyq(rng, s_, cplx) for s_ in (sx, sy, sz)]
+    set_pec(*e)
+    src = [dyq(rng, s_, cplx) for s_ in (sx, sy, sz)]
+    set_pec(*src)
+
+    def eta():
+        a = np.empty(shp, dtype=object)
+        for idx in np.ndindex(*shp):
+            a[idx] = Q(-Fr(int(rng.integers(1, 9)), 2),
+                       -Fr(int(rng.integers(1, 9)), 2) if cplx else Fr(0))
+        return a
+    etax = eta()
+    etay = eta() if alias in ('HTI', 'triaxial') else etax
+    etaz = eta() if alias in ('VTI', 'triaxial') else etax
+    return dict(shape=shp, hx=dyq(rng, (shp[0],), positive=True),
+                hy=dyq(rng, (shp[1],), positive=True),
+                hz=dyq(rng, (shp[2],), positive=True),
+                eta=(etax, etay, etaz), zeta=dyq(rng, shp, positive=True),
+                e=tuple(e), s=tuple(src), alias=alias, cplx=cplx)
+
+
+def real_multigrid(c, cfg):
+    """`emg3d.solver.multigrid` itself, in float64, on the case's numbers."""
+    import types
+    import emg3d
+    from emg3d import solver as S
+    cplx = c['cplx']
+
+    def arr(a):
+        v = to_complex(a)
+        return v if cplx else v.real.copy()
+    grid = emg3d.TensorMesh([to_complex(c[k]).real for k in
+                             ('hx', 'hy', 'hz')], (0, 0, 0))
+    etas = [arr(a) for a in c['eta']]
+    vm = types.SimpleNamespace(
+        case=c['alias'], grid=grid, eta_x=etas[0],
+        eta_y=etas[1] if c['eta'][1] is not c['eta'][0] else etas[0],
+        eta_z=etas[2] if c['eta'][2] is not c['eta'][0] else etas[0],
+        zeta=to_complex(c['zeta']).real.copy())
+    freq = 1.0 if cplx else -1.0
+    sf = emg3d.Field(grid, frequency=freq)
+    ef = emg3d.Field(grid, frequency=freq)
+    for f, src in ((sf, c['s']), (ef, c['e'])):
+        f.fx[...] = arr(src[0])
+        f.fy[...] = arr(src[1])
+        f.fz[...] = arr(src[2])
+    nus = cfg['nus']
+    var = S.MGParameters(
+        cycle=cfg['cycle'], sslsolver=False, semicoarsening=cfg['sc'],
+        linerelaxation=cfg['lr'], shape_cells=grid.shape_cells, verb=-1,
+        maxit=cfg['ncyc'], tol=1e-300, nu_init=nus[0], nu_pre=nus[1],
+        nu_coarse=nus[2], nu_post=nus[3], clevel=cfg['clevel'])
+    var.l2_refe = float(np.linalg.norm(sf.field)) or 1.0
+    with warnings.catch_warnings():
+        warnings.simplefilter('ignore')
+        S.multigrid(vm, sf, ef, var)
+    return ef.field.copy(), var.it
+
+
+def cycle_line(c, cfg):
+    from harness import c05
+    shp = c['shape']
+    scp = ''.join(map(str, c05.digits_of(cfg['sc'], [1, 2, 3])))
+    lrp = ''.join(map(str, c05.digits_of(cfg['lr'], [4, 5, 6])))
+    nus = cfg['nus']
+    head = (f"mgrun {cfg['cycle']} {shp[0]} {shp[1]} {shp[2]} "
+            f"{cfg['clevel']} {scp} {lrp} {nus[0]} {nus[1]} {nus[2]} {nus[3]} "
+            f"{cfg['ncyc']} 0")
+    parts = [c['hx'], c['hy'], c['hz'], *c['eta'], c['zeta'], *c['e'],
+             *c['s']]
+    return head + " | " + " | ".join(line(a) for a in parts)
+
+
+def parse_field(out):
+    secs = out.split(' | ')
+    if secs[0] not in ('ok', 'fail'):
+        return secs[0], None
+    return secs[0], [[parse(w) for w in s_.split()] for s_ in secs[1:]]
+
+
+def suite_cycle(ctx, core):
+    from harness import c05
+    rng = ctx.nprng('cycle')
+    n = 14 if ctx.thorough else 6
+    cases = []
+    for t in range(n):
+        big = ctx.thorough and t % 4 == 3
+        pool = [2, 3, 4, 4, 6] if big else [2, 3, 3, 4, 4]
+        shp = tuple(int(rng.choice(pool)) for _ in range(3))
+        if big and sorted(shp)[1] > 4:
+            shp = (shp[0], 4, 4)
+        cfg = c05.gen_cfg(rng, 8, True)
+        cfg['shape'] = list(shp)
+        cfg['ncyc'] = 2 if (ctx.thorough and t % 5 == 0) else 1
+        if not big:
+            cfg['nus'] = [min(v, 1 + (t % 2)) for v in cfg['nus']]
+        if sum(cfg['nus'][1:]) == 0:
+            cfg['nus'][2] = 1
+        alias = ['isotropic', 'HTI', 'VTI', 'triaxial'][t % 4]
+        c = cycle_case(rng, shp, alias, cplx=(t % 5 != 4))
+        fixed = t % 2 == 1
+        if fixed:
+            # exact solution: s := A e on the interior edges, zero elsewhere
+            Ae = c02.run_py(core, c)
+            masks = c02.interior_masks(shp)
+            c['s'] = tuple(np.where(mk, a, Q(0)) for a, mk in zip(Ae, masks))
+        cases.append((c, cfg, fixed))
+    outs = common.run_driver([cycle_line(c, cfg) for c, cfg, _ in cases],
+                             timeout=1500, jobs=min(8, len(cases)))
+    bad, singular = [], 0
+    worst = 0.0
+    for (c, cfg, fixed), out in zip(cases, outs):
+        tag = (c['shape'], cfg['cycle'], cfg['sc'], cfg['lr'], cfg['clevel'],
+               tuple(cfg['nus']), cfg['ncyc'], c['alias'], c['cplx'], fixed)
+        flag, fld = parse_field(out)
+        if fld is None:
+            bad.append(('model', tag, out[:80]))
+            continue
+        if flag == 'fail':
+            singular += 1
+            continue
+        got, it = real_multigrid(c, cfg)
+        exp = np.array([complex(v) for comp in fld for v in comp])
+        scale = max(float(np.max(np.abs(exp))), 1e-300)
+        d = float(np.max(np.abs(got-exp)))/scale
+        worst = max(worst, d)
+        if it != cfg['ncyc'] or not d <= 1e-9:
+            bad.append(('cycle', tag, d, it))
+        if fixed:
+            e0 = np.concatenate([np.array([v for v in a.ravel('F')],
+                                          dtype=object) for a in c['e']])
+            # the model returns the exact solution exactly (theorem
+            # `mgRun_fixed`, executed: its hypotheses are met by this case)
+            if [v for comp in fld for v in comp] != list(e0):
+                bad.append(('model moved an exact solution', tag))
+            ref = np.array([complex(v) for v in e0])
+            dm = float(np.max(np.abs(got-ref)))/max(
+                float(np.max(np.abs(ref))), 1e-300)
+            if not dm <= 1e-9:
+                ctx.violation(
+                    'exact-solution-moved-by-cycle',
+                    f'solver.multigrid {tag}: started from the exact solution '
+                    f'of its system, the field returned differs from it by '
+                    f'{dm:.3g} (relative)',
+                    {'shape': list(c['shape']), 'cfg': {k: (v if not isinstance(
+                        v, (np.integer,)) else int(v)) for k, v in cfg.items()},
+                     'alias': c['alias']})
+        ctx.count(key=('cycle', tag))
+    ctx.cov['cycle_cases'] = len(cases)
+    ctx.cov['cycle_singular_skipped'] = singular
+    ctx.cov['cycle_worst_rel_diff'] = worst
+    ctx.oblige('correspondence: solver.multigrid (float64; V/W/F, all '
+               'semicoarsening / line-relaxation settings, smoothing counts, '
+               'anisotropy cases, Laplace and frequency domain) == Emg.mgRun '
+               '(exact), to 1e-9; exact solutions come back unchanged from '
+               'both', 'correspondence', not bad, str(bad[:2])[:500])
+    return bad
+
+
+def suite_phys(ctx):
+    """The hypothesis `Phys` of the unconditional theorems, on the real
+    coefficients: `VolumeModel` (all mappings, anisotropy cases, mu_r,
+    epsilon_r; frequency and Laplace domain) and the coarse models of
+    `solver.restriction`."""
+    import emg3d
+    from emg3d import solver as S
+    rng = ctx.nprng('phys')
+    bad = []
+    maps_ = ['Conductivity', 'LgConductivity', 'LnConductivity',
+             'Resistivity', 'LgResistivity', 'LnResistivity']
+    n = 24 if ctx.thorough else 8
+    for t in range(n):
+        shp = tuple(int(rng.choice([2, 4, 6, 8])) for _ in range(3))
+        hs = [rng.uniform(0.5, 50.0, k) for k in shp]
+        grid = emg3d.TensorMesh(hs, origin=tuple(rng.uniform(-100, 100, 3)))
+        mp = getattr(emg3d.maps, 'Map' + maps_[t % 6])()
+        case = ['isotropic', 'HTI', 'VTI', 'triaxial'][t % 4]
+        props = {'property_x': mp.forward(10**rng.uniform(-4, 3, shp))}
+        if case in ('HTI', 'triaxial'):
+            props['property_y'] = mp.forward(10**rng.uniform(-4, 3, shp))
+        if case in ('VTI', 'triaxial'):
+            props['property_z'] = mp.forward(10**rng.uniform(-4, 3, shp))
+        if t % 2:
+            props['mu_r'] = 10**rng.uniform(-1, 2, shp)
+        if t % 3 == 0:
+            props['epsilon_r'] = 10**rng.uniform(0, 2, shp)
+        model = emg3d.Model(grid, mapping=maps_[t % 6], **props)
+        freq = float(10**rng.uniform(-3, 6))
+        laplace = t % 4 == 3
+        sf = emg3d.Field(grid, frequency=-freq if laplace else freq)
+        vm = emg3d.models.VolumeModel(model, sf)
+        levels = [('fine', vm)]
+        res = emg3d.Field(grid, frequency=sf._frequency)
+        for sc in (0, int(rng.integers(1, 7))):
+            try:
+                cm = S.restriction(vm, sf, res, S._current_sc_dir(sc, grid))[0]
+                levels.append((f'coarse sc={sc}', cm))
+            except Exception:     # noqa  (nothing to coarsen)
+                pass
+        for name, m_ in levels:
+            ok = all(np.all(h > 0) for h in m_.grid.h)
+            z = np.asarray(m_.zeta)
+            ok &= bool(np.all(np.isreal(z)) and np.all(np.real(z) > 0))
+            for comp in ('eta_x', 'eta_y', 'eta_z'):
+                e_ = np.asarray(getattr(m_, comp))
+                if laplace:
+                    ok &= bool(np.all(np.imag(e_) == 0) and np.all(
+                        np.real(e_) < 0))
+                else:
+                    ok &= bool(np.all(np.imag(e_) < 0))
+            if not ok:
+                bad.append((name, maps_[t % 6], case, laplace, freq))
+        ctx.count(key=('phys', t, maps_[t % 6], case, laplace))
+    ctx.oblige('monitor: the coefficients the solver works with satisfy the '
+               'hypothesis Phys of the unconditional theorems (positive '
+               'widths; zeta real > 0; Im eta < 0 in the frequency domain, '
+               'eta real < 0 in the Laplace domain), on the fine grid and '
+               'after solver.restriction', 'monitor', not bad, str(bad[:3]))
+    return bad
+
+
 def run(ctx):
     from emg3d import core
-    ctx.lean('Emg3dVerif.Props.C03', THEOREMS)
+    ctx.lean('Emg3dVerif.Props.Coercive', THEOREMS)
     ctx.assumptions += [
-        'BlockInj / non-zero pivots (non-singular block systems) is a '
-        'hypothesis of the fixed-point and linearity theorems; the model '
-        'reports per case that every block system was solved and verified',
+        'BlockInj (non-singular block systems) is a hypothesis of the '
+        'generic fixed-point and linearity theorems; it is PROVED for '
+        'physical models over the complex numbers (allInj_phys: real widths, '
+        'zeta >= 0, eta in an open half-plane - frequency or Laplace domain), '
+        'the class being closed under coarsening (Phys.coarse); the model '
+        'also reports per case that every block system was solved and '
+        'verified; non-zero pivots of the pivot-free LDL^T remain a '
+        'hypothesis of solveBanded_exact',
         'growth of rounding error in the pivot-free LDL^T is not covered',
     ]
     with warnings.catch_warnings():
@@ -415,11 +717,13 @@ def run(ctx):
         bad_l = suite_ldlt(ctx, core)
         bad_j = suite_jit(ctx, core)
         suite_oracle(ctx, core)
-    if (bad or bad_l or bad_j) and not ctx.violations:
-        what = (bad[:1] or bad_l[:1] or bad_j[:1])
+        bad_c = suite_cycle(ctx, core)
+        suite_phys(ctx)
+    if (bad or bad_l or bad_j or bad_c) and not ctx.violations:
+        what = (bad[:1] or bad_l[:1] or bad_j[:1] or bad_c[:1])
         ctx.violation(
             'model-correspondence-broken',
-            'the smoothers no longer compute the function of the Lean model '
+            'the smoothers / the multigrid call no longer compute the function of the Lean model '
             f'({str(what)[:300]}), but fixed point / boundary / linearity / '
             'last-block clauses still hold on every configuration tried',
             {'correspondence': 'smoothers', 'first': str(what)[:600]},
